@@ -42,6 +42,11 @@ def main(argv):
             # the property's own engine could not go on; the shape lints below are independent of it and still run
             chk.error("analysis aborted: %s" % e)
             explanation = None
+        except Exception as e:
+            # an obligation outside the decidable fragment escaped its guard: no verdict from the rest of the module, but what was already found stands
+            traceback.print_exc()
+            chk.error("analysis aborted by %s: %s" % (type(e).__name__, str(e)[:120]))
+            explanation = None
         lints.run_for(chk, prog, pid, extra_files=getattr(mod, "LINT_EXTRA_FILES", ()))
         lints.gate_report(chk, pid)
         explanation = (explanation or mod.__doc__ or pid) + "\n\nShared lints run on this property's anchor files (sa/lints.py):\n" + lints.__doc__
